@@ -416,6 +416,18 @@ def broadcast_evals(rnd, tier):
                                         'e': B(op, V(l_), V(r))}],
                             'copyall': True}},
                         {'act': 'copy', 'src': 3, 'others': [], 'args': {}}]})
+                # a second assignment whose value is a plain (masked) array of
+                # the broadcast shape, after an intermediate variable of that
+                # shape was assigned
+                w = {'t': 'where', 'c': B('>', V(r), {'t': 'int', 'v': 102}),
+                     'x': V(r), 'y': V(l_)}
+                progs.append({'templates': [t, t], 'steps': [
+                    {'act': 'eval', 'src': 1, 'others': [], 'args': {
+                        'assign': [{'name': 'NEW0',
+                                    'e': B('<=', B('-', V(l_), V(r)), V(r))},
+                                   {'name': 'NEW1', 'e': B('-', w, V(r))}],
+                        'copyall': True}},
+                    {'act': 'copy', 'src': 3, 'others': [], 'args': {}}]})
     return progs
 
 
